@@ -263,6 +263,9 @@ class Data3D(Block):
         """
         Sets the tracks in the data block.
         """
+        # the iterable may read this block's own tracks lazily (e.g. the block
+        # itself): take its items before the list is reset
+        values = list(values)
         oldTracks = self._tracks
         self._tracks = []
         try:
